@@ -177,6 +177,55 @@ def c_name(n):
 _canon_memo = {}
 
 
+# --------------------------------------------------------------------------
+# the "compiled with itself" cell: a second stage holding the compiler built by its own setup.py
+
+def selfcompiled_dir():
+    stage, th = core.stage()
+    return os.path.join(core.workdir(), "selfc-" + th[:16])
+
+
+def start_selfcompile():
+    """Starts 'setup.py build_ext --inplace' of the staged tree in a scratch copy (returns Popen or None if already built)."""
+    import subprocess
+    d = selfcompiled_dir()
+    if os.path.exists(os.path.join(d, ".built")):
+        return None
+    shutil.rmtree(d, ignore_errors=True)
+    stage, _ = core.stage()
+    shutil.copytree(stage, d)
+    for f in ("setup.py", "README.rst", "CHANGES.rst"):
+        src = os.path.join(core.REPO, f)
+        if os.path.exists(src):
+            shutil.copy(src, os.path.join(d, f))
+    env = dict(os.environ, CFLAGS="-O0 -w", PYTHONPATH=d, PYTHONDONTWRITEBYTECODE="1")
+    log = open(os.path.join(d, "selfcompile.log"), "w")
+    return subprocess.Popen([sys.executable, "setup.py", "build_ext", "--inplace", "-j", "8"], cwd=d, env=env, stdout=log, stderr=subprocess.STDOUT)
+
+
+def finish_selfcompile(proc, timeout):
+    """-> stage dir of the self-compiled compiler, or None (with reason) if it could not be built in time."""
+    d = selfcompiled_dir()
+    if proc is not None:
+        try:
+            rc = proc.wait(timeout=max(1, timeout))
+        except Exception:
+            proc.kill()
+            return None, "self-compilation did not finish within the budget"
+        if rc != 0:
+            try:
+                tail = open(os.path.join(d, "selfcompile.log"), errors="replace").read()[-400:]
+            except OSError:
+                tail = ""
+            return None, "setup.py build_ext failed (exit %s): %s" % (rc, tail)
+        with open(os.path.join(d, ".built"), "w") as f:
+            f.write("ok")
+    nso = sum(1 for _, _, fs in os.walk(os.path.join(d, "Cython")) for f in fs if f.endswith(".so"))
+    if nso < 10:
+        return None, "only %d compiled modules found" % nso
+    return d, "%d compiled compiler modules" % nso
+
+
 def one_run(check, seed, i, cfg, case=None):
     rng = core.rng_for(check, seed, i)
     stage, _ = core.stage()
@@ -193,7 +242,7 @@ def one_run(check, seed, i, cfg, case=None):
             # consecutive runs share a hash seed so a worker reuses its exec'd server (spawning is the dominant cost)
             case = {"hashseed": HASHSEEDS[1 + (i // 5) % (len(HASHSEEDS) - 1)], "order": order, "nthreads": W,
                     "plan": [rng.randrange(3) for _ in range(len(names))],
-                    "warmup": rng.random() < 0.3, "files": {}}
+                    "warmup": rng.random() < 0.3, "files": {}, "selfcompiled": bool((cfg or {}).get("force_selfcompiled"))}
             for n in sorted(os.listdir(src)):
                 with open(os.path.join(src, n), encoding="utf8", errors="surrogateescape") as f:
                     case["files"][n] = f.read()
@@ -235,7 +284,14 @@ def one_run(check, seed, i, cfg, case=None):
         # the simulated build
         d = os.path.join(rundir, "build")
         shutil.copytree(src, d)
-        sv = hsrv.get(case["hashseed"], stage, core.VERIF)
+        if case.get("selfcompiled"):
+            sc_stage = (cfg or {}).get("selfcompiled_stage") or finish_selfcompile(start_selfcompile(), 1500)[0]
+            if not sc_stage:
+                raise core.HarnessError("self-compiled compiler not available for this case")
+            sv = hsrv.get(case["hashseed"], sc_stage, core.VERIF)
+            res["probes"]["builds_by_selfcompiled_compiler"] = 1
+        else:
+            sv = hsrv.get(case["hashseed"], stage, core.VERIF)
         warm = None
         if case["warmup"]:
             with open(os.path.join(d, "zz_warm.pyx"), "w") as f:
@@ -261,7 +317,7 @@ def one_run(check, seed, i, cfg, case=None):
             if got != canon[n]:
                 diffs.append(n)
         log = {"order": usable, "nthreads": case["nthreads"], "plan": case["plan"][:len(usable)], "hashseed": case["hashseed"],
-               "warmup": case["warmup"], "canon": [canon[n] for n in usable]}
+               "warmup": case["warmup"], "canon": [canon[n] for n in usable], "selfcompiled": bool(case.get("selfcompiled"))}
         res["digest"] = core.digest(log)
         res["nontrivial"] = True
         if diffs:
@@ -339,11 +395,12 @@ def check(tier):
     rep.components = {"real": ["Cython/Build/Dependencies.py cythonize / create_extension_list / cythonize_one", "the whole compiler", "real fork()ed pool workers",
                                "real interpreters with the chosen PYTHONHASHSEED"],
                       "stub": ["concurrent.futures.ProcessPoolExecutor -> SimPool (who gets which job)", "ASLR disabled via setarch -R"]}
-    rep.assumptions = ["the self-compiled compiler cell of the statement is NOT exercised by the quick tier",
+    rep.assumptions = ["the 'compiled with itself' cell builds the staged tree with its own setup.py (CFLAGS=-O0) in a scratch copy while the main batch runs and then repeats a smaller batch of builds through it (8 quick / 160 thorough); if it cannot be built within the budget the evidence says so (probe selfcompiled_cell_not_run)",
                        "SimPool runs workers one after the other: pool workers share nothing but the file system, so their relative timing cannot matter"]
     budget = core.env_budget(80 if tier == "quick" else 900)
     deadline = time.time() + budget
     cfg = {"case_timeout_s": 300}
+    sc_proc = start_selfcompile()       # builds in the background (about 1.5 min) while the main batch runs
     n = 64 if tier == "quick" else 10 ** 8
     batch = 64 if tier == "quick" else 800
     start, viol = 0, []
@@ -359,6 +416,21 @@ def check(tier):
         start += batch
         if viol:
             break
+    # the "compiled with itself" cell: the same kind of builds through a server that imports the self-compiled compiler
+    sc_stage, sc_note = finish_selfcompile(sc_proc, 240 if tier == "quick" else 900)
+    rep.extra["selfcompiled_compiler"] = sc_note
+    if sc_stage and not viol:
+        cfg_sc = dict(cfg, selfcompiled_stage=sc_stage, force_selfcompiled=True)
+        nsc = 8 if tier == "quick" else 160
+        for i, r in core.run_batch(one_run, PROP, seed, range(10 ** 6, 10 ** 6 + nsc), cfg_sc, chunk=4, deadline=time.time() + (60 if tier == "quick" else budget * 0.3)):
+            if "harness_error" in r:
+                rep.harness_errors.append(r["harness_error"])
+                continue
+            rep.absorb(r)
+            if "violation" in r:
+                viol.append((i, r["violation"]))
+    elif not sc_stage:
+        rep.probes["selfcompiled_cell_not_run"] = 1
     core.replay_known(PROP, replay, rep)
     chk = [0, 1]
     a = dict(core.run_batch(one_run, PROP, seed, chk, cfg, jobs=1, chunk=4))
